@@ -258,13 +258,13 @@ def judgeScheme (op : String) (out : List String) : PS Bool := do
       | "params" => do let p ← getParams id; pure (marshalParams comp p.pp, paramsLen comp p.pp.h.length p.pp.signatures)
       | "sk" => do let k ← getKey id; pure (marshalKey comp k.key, keyLen comp k.key.b.length k.key.signatures)
       | "ct" => match st.cts[id]? with
-        | some c => pure (fq12Bytes c.a ++ encG2 comp c.b ++ encG1 comp c.c, 576 + g1Size comp + g2Size comp)
+        | some c => pure (marshalCt comp { a := c.a, b := c.b, c := c.c }, 576 + g1Size comp + g2Size comp)
         | none => failPS "ct index"
       | "sig" => match st.sigs[id]? with
-        | some s => pure (encG1 comp s.a0 ++ encG2 comp s.a1, g1Size comp + g2Size comp)
+        | some s => pure (marshalSig comp { a0 := s.a0, a1 := s.a1 }, g1Size comp + g2Size comp)
         | none => failPS "sig index"
       | "msk" => match st.msks[id]? with
-        | some m => pure (encG1 comp m, g1Size comp)
+        | some m => pure (marshalMsk comp m, g1Size comp)
         | none => failPS "msk index"
       | _ => failPS "wk_m type"
     if bytes.length != len then failPS s!"model: marshalled length {bytes.length} ≠ length function {len}"
